@@ -432,7 +432,7 @@ pub fn adss_sizes(a: &Args) -> Report {
   let lens: Vec<usize> = if thorough {
     vec![0, 1, 15, 16, 17, 23, 24, 25, 165, 166, 167, 331, 332, 333, 4096, 100_000]
   } else {
-    vec![0, 1, 16, 24, 166, 167, 333, 100_000]
+    vec![0, 1, 16, 24, 63, 64, 65, 166, 167, 333, 100_000]
   };
   let thrs: Vec<u32> = if thorough { vec![0, 1, 2, 3, 5, 16, 64, 65, 128, 129, 256, 257] } else { vec![0, 1, 2, 5, 32, 65, 129] };
   let mut cases: Vec<(usize, usize, u32)> = Vec::new();
